@@ -469,8 +469,19 @@ impl Writer {
     }
 
     /// Copy data from files that are included for merging. Once finish, copied files are deleted.
-    #[tracing::instrument(level = "debug", skip(self))]
     fn merge(&mut self) -> Result<(), Error> {
+        let result = self.merge_files();
+        if result.is_err() {
+            // The failed merge may have left files behind. The entries that are appended from
+            // now on have to go into a file above those, otherwise they are hidden by the
+            // older entries that the merge copied once the storage gets reopened.
+            self.new_active_datafile(self.next_fileid()?)?;
+        }
+        result
+    }
+
+    #[tracing::instrument(level = "debug", skip(self))]
+    fn merge_files(&mut self) -> Result<(), Error> {
         let ctx = self.ctx.clone();
         let path = ctx.conf.path.as_path();
         let min_merge_fileid = self.next_fileid()?;
